@@ -599,6 +599,38 @@ theorem kept_results_within_limit (sep br inc : Nat) (hs : sep ≤ inc) (hb : br
   rw [this] at h
   omega
 
+theorem errEntries_not_real : ∀ (i : Nat) (ms : List Mem),
+    (errEntries (R := R) i ms).filter Entry.isReal = []
+  | _, [] => rfl
+  | i, m :: ms => by
+    cases m <;> simp [errEntries, Entry.isReal, errEntries_not_real (i + 1) ms]
+
+/-- **batch_kept_results_within_limit.**  The same for the batch response of any composition
+    in any completion order: whatever invalid members it has and whatever was replaced, the real
+    results it contains, as a batch of their own, are not larger than the limit. -/
+theorem batch_kept_results_within_limit (sep br inc : Nat) (hs : sep ≤ inc) (hb : br ≤ inc)
+    (max : Nat) (hmax : 0 < max) (encLen : Id → R → Nat) (errLen bigLen : Nat) (ms : List Mem)
+    (calls : List (Call R)) (hperm : calls.map (·.1) ~ reqIdx ms) (hne : reqMembers 0 ms ≠ [])
+    (es : List (Entry R)) (hrep : replies max inc encLen ms calls = [es])
+    (hkept : es.filter Entry.isReal ≠ []) :
+    wireLen sep br encLen errLen bigLen (es.filter Entry.isReal) ≤ max := by
+  obtain ⟨b, its, es', tail, _, _, hrep', hes, htail, _, _, _⟩ :=
+    batch_one_reply max inc encLen ms calls hperm hne
+  have : es = es' := by rw [hrep] at hrep'; simpa using hrep'
+  subst this
+  have hf : es.filter Entry.isReal = tail.filter Entry.isReal := by
+    rw [hes, filter_append, errEntries_not_real, nil_append]
+  rw [hf] at hkept ⊢
+  rw [htail] at hkept ⊢
+  exact kept_results_within_limit sep br inc hs hb max hmax encLen errLen bigLen _ hkept
+
+/-- non-vacuity: limit 78, `[invalid ×3, request 76 bytes]`: the one kept result as a batch of
+    its own is 78 bytes (the whole response is 381) -/
+example :
+    wireLen 2 2 (fun _ (_ : Nat) => 76) 99 94
+      (([.err 0 .null, .err 1 .null, .err 2 .null, .res 3 (.int 1) 0] : List (Entry Nat)).filter
+        Entry.isReal) = 78 := by decide
+
 /-- **batch_within_limit** (the whole-batch bound, with its exact side-condition): a batch
     response **without error entries for invalid members** in which **no entry was replaced**
     is not larger than `max_response_size`. -/
